@@ -50,7 +50,7 @@ chk('C16', 'translation_validation',
     'real pipeline with and without de-duplication, with unused flagged surfaces and flagged macrobodies; the written BOUNDARY_CONDITION block '
     'is read back: each entry must designate a defined SURF with the zero set of a flagged card of that kind (parallel coefficient vectors, '
     'decided under the path condition), each flagged card bounding a converted cell must have exactly one entry.',
-    TV_NOTE + '; known finding F2 (entries carry the MCNP number verbatim) is listed in known_findings.json',
+    TV_NOTE + '; a flagged surface bounds a cell when it occurs in the equation of a written non-virtual volume or of a UNION/INTE operand reachable from it; flagged cards with the same locus but different kinds are outside the claim; F2/F22 were repaired in /repo (known_findings.json, status fixed)',
     TV_TECH, 'DESIGN.md 4/C16')
 
 chk('C05', 'translation_validation',
@@ -79,11 +79,11 @@ chk('C09', 'translation_validation',
     TV_NOTE + '; the spelling part is enumeration over listed spelling classes, not a solver verdict', TV_TECH + ' (+ bounded enumeration of spellings)',
     'DESIGN.md 4/C09')
 chk('C08', 'other',
-    '(a) every text written on every feasible path of symbolic runs over four deck families (C01, C05, C15, C16) and six writer-switch '
+    '(a) every text written on every feasible path of symbolic runs over four deck families (C01, C05 incl. patently empty filler cells, C15, C16) and eight writer-switch '
     'combinations is parsed and validated structurally (ids, references, counts, both-sides, GEOMCOMP coverage, COMPOSITION count, finite '
     'numbers); (b) one step of remove_empty_volumes / remove_unused_volumes / renumber_surfaces from generated tables of volumes, z3 proving '
     'region preservation over Boolean senses.',
-    'T4 syntax as written by the converter; tables of <= 4 volumes; known finding F2 (dangling boundary-condition ids) listed in known_findings.json',
+    'T4 syntax as written by the converter; tables of <= 4 volumes; F2/F23 repaired in /repo (known_findings.json, status fixed)',
     'symbolic execution of the real pipeline + structural validator; z3 Boolean equivalence for the pruning step', 'DESIGN.md 4/C08')
 
 chk('C04', 'other',
@@ -105,7 +105,7 @@ chk('C06', 'translation_validation',
     'symbolic pitches, offsets, container radius and placements through the real pipeline; per path and provenance label z3 proves (point '
     'symbolic) that the written volumes cover exactly the union of the reference elements: unit cell translated by i a1+j a2+k a3, positive index '
     'across the first-listed plane, first index fastest, nothing outside the ranges, own universe -> lattice cell material.',
-    TV_NOTE + '; <= 9 elements per lattice; known finding F15 (degenerate range + extra trivial range rejected) in known_findings.json', TV_TECH,
+    TV_NOTE + '; <= 9 elements per lattice; unit cells written with planes, RPP facets or the RPP itself; F15/F19 repaired in /repo', TV_TECH,
     'DESIGN.md 4/C06')
 
 chk('C11', 'other',
